@@ -215,6 +215,11 @@ impl<'tcx> Cx<'tcx> {
           o.push(("callee", self.expr(f)));
         }
         o.push(("fsp", J::s(span_str(tcx, f.span))));
+        o.push(("rty", J::s(ty_str(tcx, self.tr.expr_ty(e)))));
+        if let Some(a0) = args.first() {
+          // type of the first argument: tells `?` on an Option from `?` on a Result (Try::branch has no explicit type arguments)
+          o.push(("a0ty", J::s(ty_head(tcx, self.tr.expr_ty_adjusted(a0)))));
+        }
         o.push(("args", J::Arr(args.iter().map(|a| self.expr(a)).collect())));
         self.node("call", e.span, o)
       }
@@ -226,6 +231,7 @@ impl<'tcx> Cx<'tcx> {
           self.callee_info(did, e.hir_id, &mut o);
         }
         o.push(("recv_ty", J::s(ty_head(tcx, self.tr.expr_ty_adjusted(recv)))));
+        o.push(("rty", J::s(ty_str(tcx, self.tr.expr_ty(e)))));
         o.push(("recv", self.expr(recv)));
         o.push(("args", J::Arr(args.iter().map(|a| self.expr(a)).collect())));
         self.node("mcall", e.span, o)
